@@ -889,6 +889,26 @@ func (w *World) fitClass(o Op, into *Cont, over bool) string {
 	return fmt.Sprintf("s%d", want)
 }
 
+// disposeRefused: a request was rejected; a container the harness had created as its value never entered the
+// refusing container and still belongs to the caller, who disposes of it (a detached container offered with
+// "@" simply stays detached).
+func (w *World) disposeRefused(o Op, mv MV) error {
+	if o.V == "@" {
+		return nil
+	}
+	u, _ := Unwrap(mv)
+	c, ok := u.(*Cont)
+	if !ok {
+		return nil
+	}
+	sid := c.SID
+	w.markDead(c)
+	if err := w.DisposeStorable(atree.SlabIDStorable(sid)); err != nil {
+		return wrapViol(err, "disposing of the value of the rejected request "+o.String()+": ")
+	}
+	return nil
+}
+
 func isContClass(cl string) bool {
 	if cl == "" {
 		return false
@@ -994,11 +1014,11 @@ func (w *World) apply(o Op) error {
 			err = c.Arr.Insert(idx, rv)
 		}
 		if idx > n {
-			if o.V != "@" {
-				// a large value may have been externalised before the bounds check
-			}
 			w.LastRet = "err:oob"
-			return checkErr(err, errIndexOOB, o.String())
+			if e := checkErr(err, errIndexOOB, o.String()); e != nil {
+				return e
+			}
+			return w.disposeRefused(o, mv)
 		}
 		if e := checkErr(err, errNone, o.String()); e != nil {
 			return e
@@ -1021,7 +1041,10 @@ func (w *World) apply(o Op) error {
 		old, err := c.Arr.Set(o.I, rv)
 		if o.I >= uint64(len(c.Elems)) {
 			w.LastRet = "err:oob"
-			return checkErr(err, errIndexOOB, o.String())
+			if e := checkErr(err, errIndexOOB, o.String()); e != nil {
+				return e
+			}
+			return w.disposeRefused(o, mv)
 		}
 		if e := checkErr(err, errNone, o.String()); e != nil {
 			return e
